@@ -19,6 +19,8 @@ MCNoKinds == {}
 \* and the listener is closed when the route of its port goes
 MCKindOrderDyn == <<"http", "tcp", "grpc", "tcp-dyn">>
 MCDynKinds == {"tcp-dyn"}
+MCKindOrderDynApi == <<"http", "grpc", "https+tcp+sni", "tcp+tls">>
+MCDynKindsApi == {"https+tcp+sni", "tcp+tls"}
 \* "reset": a tunnel whose client connection was reset while the upstream keeps its side open (never ends)
 MCDurOrderDyn == <<"short", "inf", "reset">>
 MCLateKinds == {"http", "https", "tcp", "tcp+sni", "grpc", "tcp+tls"}
